@@ -215,8 +215,30 @@ func vMkdirAll(path string, perm os.FileMode) error {
 	return nil
 }
 
+// fault injection (C18 save-fault unit): the vFaultAt-th temp file created while targets run cannot
+// be created (disk full, work directory removed)
+var (
+	vInRun     bool
+	vFaultAt   = -1
+	vFaultSeen int
+	vFaulted   = map[string]bool{} // name of the target being evaluated when the fault struck
+)
+
 func vCreateTemp(dir, pattern string) (*os.File, error) {
 	vTick("create-temp")
+	if vInRun && vFaultAt >= 0 {
+		vFaultSeen++
+		if vFaultSeen-1 == vFaultAt {
+			for i := len(vEvents) - 1; i >= 0; i-- {
+				if vEvents[i].kind == "evaluating" {
+					vFaulted[vNameOf(vEvents[i].label)] = true
+					break
+				}
+			}
+			vReach("save-faulted")
+			return nil, vErrT("no space left on device")
+		}
+	}
 	if n, ok := vFS[dir]; !ok || !n.dir {
 		return nil, vErrNotExist
 	}
@@ -396,7 +418,11 @@ func vEnvValue(tok string) starlark.Value {
 }
 
 func vFunctionEnv(f starlark.Callable) (starlark.Value, error) { return vEnvValue(vEnvTok[f.Name()]), nil }
-func vNewThread(f *function) *starlark.Thread                  { return nil }
+// vNewThread: the thread a body runs on; the kernel remembers whose body it is so that the body can
+// write to the target's output (a real lineWriter, as util.SetStdio would wire it up)
+var vCurF *function
+
+func vNewThread(f *function) *starlark.Thread { vCurF = f; return nil }
 
 type vWriter struct{ w io.Writer }
 
@@ -437,6 +463,11 @@ func vCall(thread *starlark.Thread, fn starlark.Value, args starlark.Tuple, kwar
 	vEvent(vLabelOf(vBodies[b.name]), "body")
 	if vDry {
 		vAssert(false, "C13: a target body was called during a dry run")
+	}
+	// every body writes one line of output without a terminating newline (C18: delivered exactly
+	// once, before the completion event, also when the body then fails)
+	if vCurF != nil && vCurF.out != nil {
+		vCurF.out.Write([]byte("out:" + b.name))
 	}
 	if vFail[b.name] {
 		vLastOK[b.name] = false
@@ -529,7 +560,10 @@ func (e *vEngine) EvaluateTargets(labels ...string) []runner.Result {
 
 func vSeqRun(targets runner.Targets, l string) error {
 	e := &vEngine{targets: targets, done: map[string]runner.Result{}}
-	return e.EvaluateTargets(l)[0].Error
+	vInRun = true
+	err := e.EvaluateTargets(l)[0].Error
+	vInRun = false
+	return err
 }
 
 // ---------------------------------------------------------------- events
